@@ -32,7 +32,8 @@ CLAIMS["C01"] = dict(
          "solution boundary carrying output (11076 cells); (4) no product is formed in signed 64-bit arithmetic and no single-precision floating point is used (coordinates up to 2^61); (5) an "
          "intersection corrected into its scanbeam stays on an edge (x recomputed at the clamped y); (6) whoever may modify the local-minima list "
          "invalidates its 'sorted' flag; (7) GetSegmentIntersectPt, in both precision build options, stores - as a real-number formula - the "
-         "crossing point of the two lines (identity of polynomial normal forms, engine E14). "
+         "crossing point of the two lines, and TopX is the x of the line through bot and top at the given y, shortcuts included (identities of "
+         "polynomial normal forms, engine E14). "
          "A wrong reachable cell is a wrong region for some input in general position; the "
          "converse (the behaviour of C01) is NOT decided.",
     note="Assumes the code's stated invariants for wind_cnt / wind_cnt2 and that AEL neighbours are the geometric neighbours. AEL ordering, "
@@ -76,7 +77,10 @@ CLAIMS["C07"] = dict(
          "every EndType equal Butt->DoBevel(i,i), Round->DoRound(i,i,PI), Square->DoSquare(i,i) and agree at both ends; (iv) Group::Group strips a "
          "closing vertex only for the closed end types Polygon and Joined (for open ends it is the end point of the last segment); (v) every function of "
          "the offsetter computes the same x/y with and without USINGZ (sibling identity modulo Z erasure); (vi) the miter threshold derived from "
-         "MiterLimit is re-derived by every Execute before a join reads it (the join factor bound is the one of the limit in force).",
+         "MiterLimit is re-derived by every Execute before a join reads it (the join factor bound is the one of the limit in force); (vii) the join "
+         "formulas (unit normal, sin/cos of the turn, miter, bevel, round start and rotation step, perpendicular offset) equal the textbook "
+         "formulas as polynomial normal forms (engine E14) and OffsetPoint dispatches every convex vertex to the construction of its JoinType, "
+         "mitering exactly while the miter length is within the limit.",
     note="Stroke geometry, cap extents, circles for points are NOT decided. Stale normals passed to a delta callback (D12) are reported under C12.",
     technique="static analysis: loop-carried-state dataflow + AST rule on reads of delta + interpreted dispatch tables",
     design="§3 E2/E3, §4 C07", engine="E2")
@@ -225,15 +229,18 @@ CLAIMS["C20"] = dict(
 
 CLAIMS["C06"] = dict(
     category="other",
-    text="The property is geometric and its distance clauses are NOT decided. Decided statically are only the plumbing clauses that are necessary "
-         "conditions of 'orientation of the input (and ReverseSolution) is preserved' and '|delta| < 0.5 leaves the region unchanged': the "
+    text="The property is geometric and its distance clauses are NOT decided. Decided statically are the plumbing clauses that are necessary "
+         "conditions of 'orientation of the input (and ReverseSolution) is preserved' and '|delta| < 0.5 leaves the region unchanged', and the "
+         "formula / dispatch level of the joins: the "
          "clean-up union's 16-cell table (fill rule Negative iff paths reversed, output target, ReverseSolution(reverse_solution_ != "
          "paths_reversed), PreserveCollinear), the insignificant-delta shortcut, the sign of the group delta for every end type, the "
          "definition of a reversed group, the output target set by every Execute overload, closing-vertex stripping per end type, x/y identical "
-         "with and without USINGZ in every offsetter function, and "
+         "with and without USINGZ in every offsetter function, the join formulas as polynomial normal forms and the join dispatch on convex "
+         "vertices (Miter within the limit else Square; Round; Bevel; Square), and "
          "independence of the groups of one ClipperOffset (loop-carried-state dataflow); tables extracted by interpreting the AST over the complete finite domain of the flags.",
-    note="Round / miter / square / bevel join geometry, tolerance bands, shrinking beyond the inradius: NOT decided.",
-    technique="static analysis: interpreted decision tables over complete finite flag domains",
+    note="What the joined offset curves enclose - tolerance bands, the square join's corner construction (DoSquare), concave vertices, shrinking "
+         "beyond the inradius - is NOT decided; the formulas are decided as real-number formulas, not their floating-point evaluation.",
+    technique="static analysis: interpreted decision tables over complete finite flag domains + identities of polynomial normal forms",
     design="§4 C06, §9", engine="E12")
 CLAIMS["C19"] = dict(
     category="other",
@@ -302,7 +309,7 @@ def main():
              "kind_free_text": "subsequence-by-construction and monotone flags for the path utilities"},
             {"name": "E13", "path": "/verif/vlib/engines/e13_links.py", "serves_properties": ["C10"],
              "kind_free_text": "symbolic-heap execution of the ring-linking functions: link consistency at every throw point and exit"},
-            {"name": "E14", "path": "/verif/vlib/engines/e14_poly.py", "serves_properties": ["C18", "C01", "C13", "C03", "C20"],
+            {"name": "E14", "path": "/verif/vlib/engines/e14_poly.py", "serves_properties": ["C18", "C01", "C13", "C03", "C20", "C06", "C07"],
              "kind_free_text": "identities between polynomial normal forms of the numeric kernels (vlib/poly.py): intersection point, cross-product predicates, measurements"},
             {"name": "E12", "path": "/verif/vlib/engines/e12_plumbing.py", "serves_properties": ["C06", "C07", "C19"],
              "kind_free_text": "orientation / shortcut plumbing of ClipperOffset; structural clauses of Minkowski"},
